@@ -603,7 +603,7 @@ class C04Engine(Engine):
     quick_budget_s = 150.0
     thorough_budget_s = 1500.0
     chunk = 2
-    run_timeout_s = 240.0
+    run_timeout_s = 900.0
     determinism_sample = 4
     isolate_runs = True
     rule = ("One evaluation = one sampled solver configuration (method x formulation x back-end x l1/mobility mode x "
